@@ -27,13 +27,13 @@ CHECKS = {
   "note": "Trusted: cgstatic's extractor and model circuit; networkx add_node/add_edges_from/update semantics; implicit exceptions (KeyError on a missing node in set_output) are outside the ordering rule; callers editing c.graph directly are out of scope.",
  },
  "C01": {
-  "technique": "static: sat.py's encoder evaluated by the checker's own AST evaluator over model objects (recording CNF, injective IDPool, scripted solver) + exhaustive truth-table oracle; no import, no solver",
+  "technique": "static: sat.py's encoder evaluated by the checker's own AST evaluator over model objects (recording CNF, injective IDPool, scripted solver, and a DPLL solver model with the PySAT interface for solve() end to end) + exhaustive truth-table / consistent-valuation oracle incl. cyclic circuits; structural rules (dispatch exhaustiveness, IDPool key taint); stale-state rule; no import, no real solver",
   "text": "For every supported gate type and fan-in arity 1..K (K=4 quick, 6 thorough) and for multi-gate model circuits (shared parity fan-in, constants, blackbox pins, single-input demotion, adversarial names) the clauses cnf() emits are compared by exhaustive enumeration with the gate relation, including unique extension of auxiliary variables; auxiliary keys can never equal a node name; every node variable occurs; assumption polarity, the non-node guard, formula hand-over and solve()'s model read-back are decided against PySAT's documented contract.",
   "design_ref": "DESIGN.md section 3 C01",
   "note": "Trusted: cgstatic's evaluator and model classes (IDPool/CNF/Solver contracts are frozen facts since python-sat is not installed); the external solver; arities above K are covered only by the arity-generic shape of the emission code.",
  },
  "C08": {
-  "technique": "static: sat.model_count / approx_model_count / props.signal_probability evaluated by the checker's AST evaluator with a scripted solver and fake file/process objects; DIMACS text parsed and enumerated",
+  "technique": "static: sat.model_count / approx_model_count / props.signal_probability evaluated by the checker's AST evaluator with a scripted solver and fake file/process objects; model_count end to end against a DPLL solver model vs the definition (incl. unloaded startpoints, cyclic circuits); syntactic blocking-clause rule; DIMACS text parsed and enumerated",
   "text": "Blocking clauses are the negated model literals on exactly the startpoints (inputs and blackbox outputs) and the count is the number of models produced; signal_probability counts the reflexive fan-in cone under {n: True} and normalises by that sub-circuit's own startpoints; the default-mode DIMACS text declares the startpoints as sampling set, has a consistent header, equals cnf(c) plus assumption units and has the expected projected model count on model circuits (exhaustive enumeration).",
   "design_ref": "DESIGN.md section 3 C08",
   "note": "Trusted: cgstatic's evaluator; PySAT/approxmc interface conventions; exactness on a real solver follows from C01 plus the blocking-clause rule and is argued, not mechanised; use_xor_clauses mode not covered.",
@@ -57,13 +57,13 @@ CHECKS = {
   "note": 'Trusted: reference Circuit model (add_subcircuit semantics are decided separately by C06); pairs outside the families.',
  },
  "C05": {
-  "technique": "static: helper-gate table rule (syntactic, arity independent) + limit_fanin/limit_fanout/insert_registers/acyclic_unroll evaluated from source by the checker's own AST evaluator (cgstatic.minieval) over reference model objects (cgstatic.refmodel); the package is never imported or run by CPython, no solver",
+  "technique": "static: helper-gate table rule (syntactic, arity independent) + limit_fanin/limit_fanout/insert_registers/acyclic_unroll evaluated from source by the checker's own AST evaluator (cgstatic.minieval) over reference model objects (cgstatic.refmodel); stale-state and earlier-calls rules (no state carried between calls: caches, mutable default arguments); the package is never imported or run by CPython, no solver",
   "text": 'The helper-gate table equals the non-inverting base table (algebraic, every arity). On every gate type at fan-in 1..5 and multi-level model circuits, k in {2,3}: same io, bound respected at every node, every original node keeps its function, k<2 raises; flops inserted by insert_registers replaced by d->q wires give an equivalent circuit; acyclic_unroll of an acyclic circuit is equivalent.',
   "design_ref": 'DESIGN.md section 3 C05',
   "note": 'Trusted: reference Circuit model; circuits outside the families; depth arithmetic of insert_registers beyond the families.',
  },
  "C06": {
-  "technique": "static: Circuit.add_subcircuit / fill_blackbox (methods, self = reference model) and tx.strip_blackboxes evaluated from source by the checker's own AST evaluator (cgstatic.minieval) over reference model objects (cgstatic.refmodel); the package is never imported or run by CPython, no solver; functional-substitution oracle",
+  "technique": "static: Circuit.add_subcircuit / fill_blackbox (methods, self = reference model) and tx.strip_blackboxes evaluated from source by the checker's own AST evaluator (cgstatic.minieval) over reference model objects (cgstatic.refmodel); the package is never imported or run by CPython, no solver; functional-substitution oracle; E2 effect dataflow rules (child neither mutated nor retained; no function edits a shared BlackBox definition's pin sets)",
   "text": "On model parents/children (connected and unconnected io, child output that is an input, constants, sub-blackboxes, both strip_io settings): spliced nodes compute the child's function of the attached nets, untouched nodes keep theirs, io sets and registry bookkeeping are as documented, the child is unchanged, rejected calls raise ValueError (and merge nothing where checked before merging); strip_blackboxes exposes pins as inst_pin io, deletes ignored pins, keeps every other function.",
   "design_ref": 'DESIGN.md section 3 C06',
   "note": 'Trusted: reference DiGraph model of relabel_nodes / update; families only.',
@@ -117,7 +117,7 @@ CHECKS = {
   "note": 'Trusted: the dominator model; maximality/minimality of the cover and circuits outside the families are not decided.',
  },
  "C18": {
-  "technique": "static: must-pass-through rule on acyclic_unroll's exits (syntactic) + acyclic_unroll evaluated from source by the checker's own AST evaluator (cgstatic.minieval) over reference model objects (cgstatic.refmodel); the package is never imported or run by CPython, no solver on model cyclic circuits; exhaustive stable-state enumeration",
+  "technique": "static: must-pass-through rule on acyclic_unroll's exits (syntactic) + acyclic_unroll evaluated from source by the checker's own AST evaluator (cgstatic.minieval) over reference model objects (cgstatic.refmodel); the package is never imported or run by CPython, no solver; model cyclic circuits incl. every cyclic wiring of 3 gates and a sample of 4-gate ones; exhaustive stable-state enumeration; copy-index rule; stale-state rule",
   "text": 'lint and the is_cyclic guard dominate the return, the blackbox guard comes first; on SR latch / gated ring / interlocked loops / loops through outputs the result is acyclic, lint-clean, has the same outputs and original inputs plus auxiliary inputs, and every stable state is preserved when auxiliaries take the stable values of their feedback nodes.',
   "design_ref": 'DESIGN.md section 3 C18',
   "note": 'Trusted: reference Circuit model; utils.lint (decided by C20); cyclic circuits outside the families.',
